@@ -195,7 +195,18 @@ func main() {
 		}
 		if len(o.Go.Findings) > 0 {
 			res.AddDisagreement(lib.Disagreement{Kind: "spec", Input: o.Case, Go: o.Go.Findings, SpecVerdict: "violates",
-				What: "structural oracle on the Go trees: " + o.Go.Findings[0], Replay: o.Case})
+				Known: knownLateLoad(o), What: "structural oracle on the Go trees: " + o.Go.Findings[0], Replay: o.Case})
+		}
+		if o.NoModel != "" {
+			// files on disk, loading not mirrored by the model: the oracle above has been applied
+			res.Count("path_sets_oracle_only(loaded_outside_the_linking_walk_or_two_revisions)", 1)
+			if !rescorr.HasErrors(o.Go.Dump) {
+				clean++
+				distinct.Add(strings.Join(o.Case.Texts, "\x00") + "\x00" + o.Case.Extra["roots"])
+			} else {
+				withErr++
+			}
+			continue
 		}
 		for _, lr := range o.LoadResults {
 			if lr != "accepted" {
@@ -256,6 +267,26 @@ func firstLine(s string) string {
 		return s[:i]
 	}
 	return s
+}
+
+// knownLateLoad recognises finding D04-P1 and nothing else: a files-on-disk run in which every
+// finding is "unapplied augment left at /<M>" for a module <M> that goyang read from the path
+// after the linking walk (rescorr: late_loaded), i.e. after the augment work list was drawn up.
+func knownLateLoad(o rescorr.Outcome) string {
+	if !rescorr.FromPath(o.Case) || len(o.Go.Extra["late_loaded"]) == 0 || len(o.Go.Findings) == 0 {
+		return ""
+	}
+	late := map[string]bool{}
+	for _, n := range o.Go.Extra["late_loaded"] {
+		late[n] = true
+	}
+	for _, f := range o.Go.Findings {
+		m, ok := strings.CutPrefix(f, "unapplied augment left at /")
+		if !ok || !late[m] {
+			return ""
+		}
+	}
+	return "D04-P1"
 }
 
 // pathCase turns a generated set into its files-on-disk variant.
